@@ -890,6 +890,10 @@ def panic_free(fns, f, oid, doc, bounds, pre=None, inline=(), loop_bound=1, max_
     return ob.result(it, witness=witness)
 
 
+def c03(fns, tier, env):
+    return finalize([scan_iteration(fns)], env)
+
+
 def c17(fns, tier, env):
     slot = 3 * 4096
 
@@ -903,6 +907,63 @@ def c17(fns, tier, env):
                       "slot length = 3 blocks (the caller's contract); one arbitrary iteration of each loop (for index in 0..count with 0 <= index < count)",
                       pre=pre_slot, inline=("::journal_image_size",), witness="c17_journal_forged_count")]
     return finalize(out, env)
+
+
+# ============================================================================ recovery scan: one arbitrary iteration
+def scan_iteration(fns):
+    """The scan loop cannot be unrolled over a device, but ONE iteration can be analysed from an arbitrary state:
+    start at the loop header with every local havocked and stop when the path comes back to it."""
+    f = mir.find(fns, "::scan_and_rebuild_indexes", "src/core/store/recovery.rs")
+    ob = Ob("c03_scan_iteration", "recovery scan, one ARBITRARY iteration (all locals havocked at the loop header): every path that returns to the header has "
+            "advanced `sector` (progress, so the scan terminates and never re-reads a block); a path that ACCEPTED a record (it reached version_clock.observe: header "
+            "parsed, extent in bounds, token verified) advances by exactly the record's extent length – winner or loser – so the scan never steps into the middle of a "
+            "verified extent (bytes embedded in values cannot surface as keys); every indexed timestamp is folded into the version clock before the index is updated",
+            "one iteration; inner helper loops unrolled once; calls havocked", f)
+    # loop header: the block with the most back-edges whose terminator switches on Lt(sector, total)
+    inc = {}
+    for bb, st in f.blocks.items():
+        if bb in f.cleanup:
+            continue
+        for tg in re.findall(r"bb\d+", st[-1]):
+            inc.setdefault(tg, []).append(bb)
+    num = lambda b: int(b[2:])
+    cands = []
+    for tg, srcs in inc.items():
+        back = [s_ for s_ in srcs if num(s_) > num(tg)]
+        body = " ".join(f.blocks[tg])
+        m = re.search(r"(_\d+) = copy (_\d+); (_\d+) = Lt\(move \1, copy (_\d+)\); switchInt", body)
+        if back and m:
+            cands.append((len(back), tg, m.group(2), m.group(4)))
+    if not cands:
+        raise mir.MirError("scan loop header not found")
+    cands.sort(reverse=True)
+    _n, header, sector_local, total_local = cands[0]
+    it = Interp(f, loop_bound=1, pure=PURE, slices=True, max_paths=20000)
+    s0 = z3.BitVec("sector0", 64)
+    total = z3.BitVec("total_sectors", 64)
+
+    def init(it_, st):
+        st["env"][sector_local] = s0
+        st["env"][total_local] = total
+    accepted = 0
+    for p in it.run(init, start=header, stop=(header,)):
+        ob.paths += 1
+        if p.status == "truncated":
+            ob.truncated += 1
+        if p.status != "backedge":
+            continue
+        end = p.env.get(sector_local)
+        ob.need(it, p.pc, z3.UGT(end, s0), "progress: sector strictly increases per iteration")
+        obs = events(p, "VersionClock::observe")
+        dc = events(p, "div_ceil")
+        ups = events(p, "::upsert")
+        if obs and dc:
+            accepted += 1
+            ob.need(it, p.pc, end == s0 + dc[0].ret, "an accepted record is skipped as a whole extent (sector += sectors_needed)")
+        if ups:
+            ob.must_hold(bool(obs) and idx_of(p, obs[0]) < idx_of(p, ups[0]), "timestamp folded into the version clock before the index is updated")
+    ob.must_hold(accepted >= 2, "accepted-record paths (winner and loser) were reached")
+    return ob.result(it, witness="c03_scan_skips_whole_extents")
 
 
 # ============================================================================ common tail
